@@ -265,7 +265,7 @@ def structural_points(encodings):
 
 
 def gen_schedule(r, total, points=None, max_steps=64, faults=('would_block', 'short'),
-                 sid=0, cid=0, chunk_pool=(1, 1, 2, 3, 5, 20, 400), p_struct=0.5):
+                 sid=0, cid=0, chunk_pool=(1, 1, 2, 3, 5, 20, 400), p_struct=0.5, idle=False):
     """Random deliver/poll/arm steps until all `total` bytes are delivered or the
     step budget is used.  No 'close' here; the caller decides end-of-stream timing."""
     steps = []
@@ -295,6 +295,10 @@ def gen_schedule(r, total, points=None, max_steps=64, faults=('would_block', 'sh
                 steps.append(['arm', sid, 'would_block', r.choice([1, 1, 2, 3])])
             else:
                 steps.append(['arm', sid, 'short', r.choice([1, 1, 2, 3, 7])])
+    if idle and steps and r.random() < 0.03:
+        # a long idle period: the consumer keeps polling a stream that has nothing new, a thousand times
+        # and more (a peer that is slow to answer), at a drawn point of the schedule
+        steps.insert(r.randrange(len(steps) + 1), ['idle', cid, r.choice([300, 1100, 2500])])
     return steps
 
 
